@@ -1,6 +1,8 @@
 (* C09 — executable transcription of p2p/host/peerstore/pstoreds/addr_book.go
    and addr_book_gc.go (the repaired tree: deleteInPlace re-examines the
-   element swapped into the freed slot).  No proofs here.
+   element swapped into the freed slot; the certified record is dropped with the
+   last address; a record changed by clean is always written through; record
+   addresses are compared as transport addresses).  No proofs here.
 
    Layout kept from the code: one record per peer = list of entries (kept
    sorted by expiry whenever it is not dirty; clean() relies on that: it looks
@@ -66,32 +68,37 @@ Definition clean (now : Z) (r : drec) : drec * bool :=
   let nowu := unix now in
   let n := length (daddrs r) in
   if negb (ddirty r) && negb (has_expired r nowu) then (r, false)
-  else if Nat.eqb n 0 then (r, true)
+  else if Nat.eqb n 0 then (mkDR (dp r) (daddrs r) None (ddirty r), true)
   else
     let l1 := if ddirty r && Nat.ltb 1 n then sort_exp (daddrs r) else daddrs r in
     let l2 := remove_expired l1 nowu in
-    (mkDR (dp r) l2 (dcert r) (ddirty r), ddirty r || negb (Nat.eqb (length l2) n)).
+    (mkDR (dp r) l2 (match l2 with [] => None | _ => dcert r end) (ddirty r),
+     ddirty r || negb (Nat.eqb (length l2) n)).
 
-(* addrsRecord.flush on the datastore; the record object is no longer dirty *)
+(* addrsRecord.flush on the datastore; the record object is no longer dirty,
+   and an object without addresses loses its certified record *)
 Definition flush_store (r : drec) (st : list drec) : list drec :=
   match daddrs r with
   | [] => del_dr (dp r) st
   | _ => put_dr (mkDR (dp r) (daddrs r) (dcert r) false) st
   end.
 Definition undirty (r : drec) : drec := mkDR (dp r) (daddrs r) (dcert r) false.
+Definition flushed (r : drec) : drec :=
+  mkDR (dp r) (daddrs r) (match daddrs r with [] => None | _ => dcert r end) false.
 
 Definition set_store (s : dbook) st := mkDB (d_now s) st (d_cache s) (d_cached s) (d_look s) (d_keys s) (d_wend s).
 Definition set_cache (s : dbook) c := mkDB (d_now s) (d_store s) c (d_cached s) (d_look s) (d_keys s) (d_wend s).
 
 (* loadRecord(id, cache, update): the book after the call, the record object
-   handed to the caller, and whether that object lives in the cache *)
+   handed to the caller, and whether that object lives in the cache.  (The
+   [update] argument no longer matters: a changed record is always flushed.) *)
 Definition load (s : dbook) (p : Z) (cacheit update : bool) : dbook * drec * bool :=
   match find_dr p (d_cache s) with
   | Some pr =>
       let '(pr1, chg) := clean (d_now s) pr in
-      if chg && update
-      then (set_cache (set_store s (flush_store pr1 (d_store s))) (put_dr (undirty pr1) (d_cache s)),
-            undirty pr1, true)
+      if chg
+      then (set_cache (set_store s (flush_store pr1 (d_store s))) (put_dr (flushed pr1) (d_cache s)),
+            flushed pr1, true)
       else (set_cache s (put_dr pr1 (d_cache s)), pr1, true)
   | None =>
       let '(s1, pr1) :=
@@ -99,7 +106,7 @@ Definition load (s : dbook) (p : Z) (cacheit update : bool) : dbook * drec * boo
         | None => (s, mkDR p [] None false)
         | Some data =>
             let '(pr1, chg) := clean (d_now s) (undirty data) in
-            if chg && update then (set_store s (flush_store pr1 (d_store s)), undirty pr1)
+            if chg then (set_store s (flush_store pr1 (d_store s)), flushed pr1)
             else (s, pr1)
         end in
       if cacheit && d_cached s then (set_cache s1 (put_dr pr1 (d_cache s1)), pr1, true)
@@ -111,7 +118,7 @@ Definition writeback (s : dbook) (pr : drec) (incache : bool) : dbook :=
   if incache then set_cache s (put_dr pr (d_cache s)) else s.
 (* ... and flushed it *)
 Definition flush (s : dbook) (pr : drec) (incache : bool) : dbook :=
-  writeback (set_store s (flush_store pr (d_store s))) (undirty pr) incache.
+  writeback (set_store s (flush_store pr (d_store s))) (flushed pr) incache.
 
 Inductive ttlmode := TOverride | TExtend.
 
@@ -229,17 +236,13 @@ Definition d_consume (s : dbook) (p seq id : Z) (addrs : list raw) (ttl : Z) : d
       | Some c =>
           let '(s3, pr3, _) := load s2 p true false in
           let superseded :=
-            filter (fun a : raw =>
-                      (* newSet / connected are keyed by the cleaned bytes: a raw key
-                         with a /p2p suffix is in neither *)
-                      negb ((snd a =? 0) && zmem (fst a) new) &&
-                      negb ((snd a =? 0) &&
-                            existsb (fun e => (da e =? fst a) && conn (dttl e)) (daddrs pr3)))
-                   (raddrs c) in
+            filter (fun a =>
+                      negb (zmem a new) &&
+                      negb (existsb (fun e => (da e =? a) && conn (dttl e)) (daddrs pr3)))
+                   (clean_addrs (raddrs c)) in
           match superseded with
           | [] => s3
-          | _ => (* deleteInPlace compares raw bytes with stored (suffix-free) bytes *)
-                 d_deleteaddrs s3 p (map fst (filter (fun a : raw => snd a =? 0) superseded))
+          | _ => d_deleteaddrs s3 p superseded
           end
       end in
     let s5 := d_setaddrs s4 p new ttl TExtend in
@@ -294,7 +297,7 @@ Definition d_purge_look (s : dbook) : dbook :=
                  | Some c =>
                      let '(c1, chg) := clean (d_now s) c in
                      let st1 := if chg
-                                then set_cache (set_store st (flush_store c1 (d_store st))) (put_dr (undirty c1) (d_cache st))
+                                then set_cache (set_store st (flush_store c1 (d_store st))) (put_dr (flushed c1) (d_cache st))
                                 else set_cache st (put_dr c1 (d_cache st)) in
                      resched c1 st1
                  | None =>
